@@ -194,24 +194,22 @@ Proof. exists dco_reg_witness. vm_compute. split; reflexivity. Qed.
 Print Assumptions C09_dco_unrepaired_wf_refuted.
 
 (* ===== direct_connect_outputs postcondition =====
-   The repaired code repeats the pass until nothing changes.  Proved: the loop
-   ends either with no removable w-net before an Output left, or after all its
-   fuel (= number of nets) was spent on changing passes.  The remaining step to
-   the full statement (every changing pass removes a net of a well-formed block)
-   is not proved; the postcondition is evaluated on the model's result for
-   every design of the correspondence run instead. *)
-Definition C09_dco_post_full_statement : Prop :=
-  forall nl, sanity_block nl = true ->
-    post_direct_connect_outputs (direct_connect_outputs nl) = true.
+   The repaired code repeats the pass until nothing changes.  For every
+   netlist in which no net reads an Output (in particular every netlist accepted
+   by the sanity_check model) the result has no removable w-net before an Output:
+   every changing pass removes a net, so the loop reaches its fixpoint. *)
+Theorem C09_dco_post : forall nl,
+  sanity_block nl = true -> post_direct_connect_outputs (direct_connect_outputs nl) = true.
+Proof. exact dco_post_sane. Qed.
+Print Assumptions C09_dco_post.
 
-Theorem C09_dco_post_partial : forall fuel nl,
-  post_direct_connect_outputs (dco_iter dco_skips fuel nl) = true
-  \/ dco_iter dco_skips fuel nl = dco_passes fuel nl.
-Proof. exact dco_iter_post. Qed.
-Print Assumptions C09_dco_post_partial.
+Theorem C09_dco_post_outputs_unread : forall nl,
+  outputs_unread nl -> post_direct_connect_outputs (direct_connect_outputs nl) = true.
+Proof. exact dco_post. Qed.
+Print Assumptions C09_dco_post_outputs_unread.
 
 (* one pass alone does not establish it on a chain of 'w' nets
-   (`t1 <<= ~a; t2 <<= t1; o <<= t2`): the loop is necessary *)
+   (`t1 <<= ~a; t2 <<= t1; o <<= t2`): the loop (repair f048c69) is necessary *)
 Theorem C09_dco_single_pass_refuted :
   exists nl, sanity_block nl = true
              /\ post_direct_connect_outputs (dco_with dco_skips nl) = false
